@@ -12,9 +12,15 @@ CLAIMED = {
 	'C01': ('other', 'operator-precedence order compatibility over grammar ladder x Jinja output shapes x frozen C++ table; template/helper/i18n existence joins; anchoring lint',
 		'Decides six structural necessary conditions of C01 exhaustively over finite tables: every (parent, un-parenthesised child) operator pair the grammar allows is checked against the C++ operators Py2Cpp emits (handler code + Jinja ASTs), every render call site resolves to an existing parseable template, every helper/filter/i18n key a template uses exists, handler parameters equal node properties, scope containment is element-anchored, the dunder->operator table agrees with CPython dispatch. Does not decide run-time equivalence or C++20 acceptance.',
 		'trusts the frozen ISO C++ precedence table, lark/jinja2/PyYAML as data-file parsers; grammar ladder ~ CPython is C02', 'DESIGN.md §4 C01'),
+	'C02': ('other', 'operator-ladder order isomorphism against CPython precedence tables; abstract evaluation of child selectors over lark-compiled tree shapes; dispatch-table shadowing analysis',
+		'Decides exhaustively over finite tables: the grammar ladder is order-isomorphic to ast._Precedence for all ~25 common tokens; each of ~300 child selectors in the node classes addresses a child the grammar can produce at that position for every mapped tag, with satisfiable class assertions; no unconditional class shadows later candidates of its tag; constant indexing into repeated slots is reported (F7 known finding). Tree equality with ast.parse over all programs is not decided.',
+		'tree shapes from lark compiled rules; LALR automaton and indenter not modelled', 'DESIGN.md §4 C02'),
 	'C03': ('other', 'stub-signature vs CPython result-type table, token->dunder table via probe object, literal-handler table, anchoring lint on index paths',
 		'Decides four narrow necessary conditions: stub operator/conversion signatures equal the types CPython computes on constants for every admitted operand type; the operator token->dunder table equals CPython dispatch; literal handlers name the right standard type; index-path containment tests are "."-anchored. Scope lookup / template substitution over run-time data is not decided.',
 		'CPython builtins are the oracle (evaluated on constants, no tranp code runs)', 'DESIGN.md §4 C03'),
+	'C04': ('other', 'store pairing along load/unload paths, syntactic nondeterminism-source inventory with positive fixture, global-mutation inventory',
+		'Decides: every per-module store written on the load path is deleted on the unload path and Modules.unload reaches every owner; no set construction, id/hash or unsorted listing outside a reviewed allow-list on the pipeline; process-global mutation is limited to the reviewed (import-time / pure-cache) sites; the transpiler dependency stack is balanced. Equality of outputs across histories and hash seeds is not decided.',
+		'insertion-ordered dicts; per-module objects live in the per-module DI container', 'DESIGN.md §4 C04'),
 	'C05': ('other', 'guard-dominance walk over the closed cache region + who-may-touch + cache-identity coverage',
 		'Decides the clause "with caching disabled no cache file is read or written": every call-graph path from a public cache entry to a file-system effect passes the enabled side of a CacheSetting.enabled test; only the cache region touches the cache directory; every cache identity covers the settings/files its factory reads. warm==cold over edit histories is not decided.',
 		'effects are recognised by callee name inside the region; callee resolution is annotation/MRO based', 'DESIGN.md §4 C05'),
@@ -45,6 +51,12 @@ CLAIMED = {
 	'C19': ('other', 'store analysis of the container classes: fresh-copy/alias classification in clone/combine, add/delete store pairing along bind/unbind paths (following super), raise-type inventory',
 		'Decides the structural clauses of the container model: clones and combinations own their storage and do not mutate operands, the right operand wins, stores written by bind/resolve are exactly those deleted by unbind, rebind is unbind-then-bind, the public API raises ValueError (TypeError in combine), invoke curries the maximal resolvable prefix. Observational equivalence with a reference model is not decided.',
 		'stores = dict attributes initialised in __init__', 'DESIGN.md §4 C19'),
+	'C10': ('other', 'writer/reader codec agreement for path elements, tag-alphabet check over the compiled grammar, closure scan of match_feature for upward navigation and side effects',
+		'Decides: path elements are written and parsed with the same tag / tag[index] codec, the index is positional and written exactly when the tag repeats, grammar tags cannot collide with the codec metacharacters; all 30 match_feature definitions and the 44 functions they reach are downward-only and pure; the resolver caches by path only. pluck(T,p) is e over all trees is not decided.',
+		'upward navigation recognised by member name', 'DESIGN.md §4 C10'),
+	'C11': ('other', 'operator-ladder extraction from the meta-grammar text (independent reader) vs CPython precedence; dominance of the full-consumption test; artifact sync',
+		'Decides the ladder order isomorphism for all operator tokens of py_gram.lark (violated by the walrus level: known findings F9/F9b), that parse returns only after consuming every token, and that py_rules.py is the compiled form of py_gram.lark. Ordered-choice hazards and tree equality over generated sentences are not decided.',
+		'vlib/metagram.py reader; regexp terminals read with re._parser', 'DESIGN.md §4 C11'),
 	'C12': ('translation_validation', 'translation validation of shipped grammar/rule-module pairs by an independent meta-grammar reader (ast + hand-written parser)',
 		'Every rule of data/syntax/gram.lark and py_gram.lark is compared node-by-node with the tuple tree checked in as gram_rules.py / py_rules.py; exhaustive over the 83 shipped rules. Decides the two fixed-point obligations of the property on the artifacts; says nothing about generated grammars.',
 		'trusts CPython ast.literal_eval and the 150-line reader vlib/metagram.py, which is itself validated by the gram.lark == gram_rules.py fixed point', 'DESIGN.md §4 C12'),
